@@ -69,4 +69,4 @@ def register(reg):
                            invariants=[('visited-candidates-are-other-outputs', 'forall(lambda k=Bytes: implies(k in _done, k != k0))'),
                                        ('nothing-queued-yet', 'self.db_deletes == old(self.db_deletes)')],
                            )},
-        portfolio=True, props=['C01'])
+        portfolio=True, feas_timeout_ms=300, props=['C01'])
